@@ -187,7 +187,7 @@ func (n *N) json(b *bytes.Buffer) {
 		emit = func(m *N) {
 			m = flattenMerges(m) // JSON has no merge keys: the merged pairs are written in place
 			for i, k := range m.Keys {
-				if k == "<<" && m.Vals[i].Merge {
+				if k == "<<" && (m.Vals[i].Merge || (m.Vals[i].AliasOf != nil && m.Vals[i].AliasOf.K == KMap)) {
 					continue
 				}
 				if !first {
@@ -627,8 +627,12 @@ func match(exp, got *N, path string) string {
 func flattenMerges(n *N) *N {
 	has := false
 	explicit := map[string]bool{}
+	isMerge := func(i int) bool {
+		v := n.Vals[i]
+		return n.Keys[i] == "<<" && (v.Merge || (v.AliasOf != nil && v.AliasOf.K == KMap))
+	}
 	for i, k := range n.Keys {
-		if k == "<<" && n.Vals[i].Merge {
+		if isMerge(i) {
 			has = true
 		} else {
 			explicit[k] = true
@@ -640,8 +644,12 @@ func flattenMerges(n *N) *N {
 	cp := *n
 	cp.Keys, cp.Vals = nil, nil
 	for i, k := range n.Keys {
-		if k == "<<" && n.Vals[i].Merge {
-			f := flattenMerges(n.Vals[i])
+		if isMerge(i) {
+			src := n.Vals[i]
+			if src.AliasOf != nil {
+				src = src.AliasOf
+			}
+			f := flattenMerges(src)
 			for j, fk := range f.Keys {
 				if explicit[fk] {
 					continue
